@@ -94,9 +94,11 @@ func propCandidates(prop string) []string {
 // declAcceptedBy: is the declaration accepted by any of the rules (browser reading of the value)?
 func declAccepted(m *Model, el string, d decl) bool {
 	prop := asciiLower(cssDecode(d.Prop))
-	lv := strings.ToLower(strings.TrimSpace(d.Value))
+	// CSS keywords, names and units are ASCII case-insensitive: a browser does not fold U+212A (Kelvin
+	// sign) into k or U+0130 into i
+	lv := asciiLower(strings.TrimSpace(d.Value))
 	v1 := cssDecode(lv)
-	v2 := strings.ToLower(v1)
+	v2 := asciiLower(v1)
 	for _, c := range propCandidates(prop) {
 		for _, r := range m.StyleRulesFor(el, c) {
 			if r.accepts(v1) || r.accepts(v2) {
@@ -117,6 +119,12 @@ var styleStrictReplay bool
 // white space or a quote inside, for a function and so finds comments and strings, and with them
 // ';' and ':', where a browser's url / bad-url token has long ended.
 func cssParserDivergence(m *Model, el, style string) bool {
+	if hasSyntaxEscape(style) {
+		// not this finding: the parser and a browser disagree because a hex escape was decoded into a
+		// bracket, quote, backslash or semicolon BEFORE the value was judged (a browser never reads an
+		// escaped character as syntax) - that is the sanitiser's own doing and repairable (D63)
+		return false
+	}
 	s := strings.TrimRight(style, " \t\n\f\r")
 	if s != "" && s[len(s)-1] != ';' {
 		s += ";"
@@ -141,6 +149,42 @@ func cssParserDivergence(m *Model, el, style string) bool {
 		}
 	}
 	return true
+}
+
+// hasSyntaxEscape: does the style hold a hexadecimal escape (backslash, 1-6 hex digits) that stands
+// for one of ( ) [ ] { } " ' \ ; ?
+func hasSyntaxEscape(style string) bool {
+	for i := 0; i+1 < len(style); i++ {
+		if style[i] != '\\' {
+			continue
+		}
+		j, v := i+1, 0
+		for j < len(style) && j < i+7 {
+			c := style[j]
+			switch {
+			case c >= '0' && c <= '9':
+				v = v*16 + int(c-'0')
+			case c >= 'a' && c <= 'f':
+				v = v*16 + int(c-'a') + 10
+			case c >= 'A' && c <= 'F':
+				v = v*16 + int(c-'A') + 10
+			default:
+				goto done
+			}
+			j++
+		}
+	done:
+		if j == i+1 {
+			i++ // backslash + another character: skip both
+			continue
+		}
+		switch v {
+		case '(', ')', '[', ']', '{', '}', '"', '\'', '\\', ';':
+			return true
+		}
+		i = j - 1
+	}
+	return false
 }
 
 func checkStyleSafety(m *Model, out string, outToks []tok, r *Rec) (kept int, err error) {
@@ -168,7 +212,7 @@ func checkStyleSafety(m *Model, out string, outToks []tok, r *Rec) (kept int, er
 						break
 					}
 					return kept, violation(out, "C10: declaration %q: %q on <%s> (value as a browser reads it: %q) is not accepted by any rule registered for that property on the element, a matching pattern or globally",
-						d.Prop, d.Value, tk.Name, cssDecode(strings.ToLower(strings.TrimSpace(d.Value))))
+						d.Prop, d.Value, tk.Name, cssDecode(asciiLower(strings.TrimSpace(d.Value))))
 				}
 				kept++
 			}
@@ -370,7 +414,7 @@ func checkC10Clean(c *Case, r *Rec) error {
 		must, may := 0, 0
 		for _, d := range ins {
 			prop := asciiLower(d.Prop)
-			val := strings.ToLower(strings.TrimSpace(d.Value))
+			val := asciiLower(strings.TrimSpace(d.Value))
 			inU := declAccepted(m, it.Name, d)
 			inL := false
 			for _, cnd := range propCandidates(prop)[len(propCandidates(prop))-1:] {
